@@ -67,8 +67,11 @@ def lock_versions():
 
 
 def decoded(t):
-    """term derived from an external decoder's result"""
-    return mentions(t, lambda s: is_call(s) and not s[1].startswith(("frost", "core::", "alloc::")))
+    """term derived from the result of a dependency function that makes a decoding decision (an audited row other than
+    "neutral": `decompress`, `from_bytes`, `from_repr`, ..) — not from a mere re-packaging of the input bytes such as
+    `CompressedEdwardsY::from_slice`, whose value is still the received encoding"""
+    deciding = {path for tab in AUDIT.values() for path, row in tab.items() if row != "neutral"}
+    return mentions(t, lambda s: is_call(s) and s[1] in deciding)
 
 
 def guard_present(ctx, f, v, kind):
